@@ -22,14 +22,14 @@ MagicClasses   == {"ok", "othernet", "garbage"}
 CmdClasses     == {"known", "unknown", "nonutf8", "nulsplice"}     \* nulsplice: known name, NUL, then non-zero bytes
 LenClasses     == {"exact", "declaredLonger", "declaredShorter", "overType", "overGlobal"}
 SumClasses     == {"ok", "bad"}
-PayloadClasses == {"valid", "truncatedInside", "countInflated", "trailingGarbage", "bitflip"}
+PayloadClasses == {"valid", "truncatedInside", "countInflated", "countHuge", "trailingGarbage", "bitflip"}   \* countHuge: a 9-byte count >= 2^31, incl. >= 2^63
 
 Frames == [kind : Kinds, hdr : HeaderClasses, magic : MagicClasses, cmd : CmdClasses, len : LenClasses, sum : SumClasses, payload : PayloadClasses]
 
 \* which class combinations can be built at all (a mutation of the payload is only meaningful on an otherwise valid frame)
 Buildable(f) ==
-  /\ (f.payload \in {"truncatedInside", "countInflated"} => f.kind \notin EmptyPayloadKinds)
-  /\ (f.payload = "countInflated" => f.kind \in CountedKinds)
+  /\ (f.payload \in {"truncatedInside", "countInflated", "countHuge"} => f.kind \notin EmptyPayloadKinds)
+  /\ (f.payload \in {"countInflated", "countHuge"} => f.kind \in CountedKinds)
   /\ (f.payload # "valid" => (f.hdr = "full" /\ f.magic = "ok" /\ f.cmd = "known" /\ f.len = "exact" /\ f.sum = "ok"))
   /\ (f.hdr = "short" => (f.magic = "ok" /\ f.cmd = "known" /\ f.len = "exact" /\ f.sum = "ok"))
   /\ (f.len = "declaredShorter" => f.kind \notin EmptyPayloadKinds)
@@ -47,7 +47,7 @@ Read(f) ==
     [] f.payload = "valid"             -> "accept"
     [] f.kind \in IgnoredPayloadKinds  -> "any"        \* payload deliberately not interpreted
     [] f.kind = "version" /\ f.payload = "truncatedInside" -> "any"   \* trailing fields of version are optional on the wire
-    [] f.payload \in {"truncatedInside", "countInflated"} -> "reject"
+    [] f.payload \in {"truncatedInside", "countInflated", "countHuge"} -> "reject"
     [] OTHER                           -> "any"        \* trailing garbage / bit flips with a recomputed checksum
 
 Table == {[f |-> f, expect |-> Read(f)] : f \in {x \in Frames : Buildable(x)}}
